@@ -1,5 +1,7 @@
 // C04 - CRC and Adler-32 results equal their mathematical definitions and compose
 #include "crc_variants.h"
+#include <sys/mman.h>
+#include <unistd.h>
 using namespace pbt;
 using namespace refcrc;
 using namespace crcv;
@@ -187,6 +189,72 @@ static void sweep_huge(SweepSink &sk) {
 		if (!sk.emit({w, 5552u * 3 + 7 + w})) return;
 }
 
+// ---------------------------------------------------------------- lengths of 4 GiB and more (the len argument is 64 bits wide)
+// One 1 MiB tile of generated bytes is mapped over and over into a > 8 GiB stretch of address space (memfd: 1 MiB of memory).  The reference value
+// is exact and independent: "update over one tile" is an affine map of the CRC register over GF(2); its matrix is measured with the bit-level
+// reference (width + 1 passes over the tile), applied once per tile, and the ragged head/tail go through the reference directly.
+#include <sys/syscall.h>
+static const size_t TILE = 1u << 20, NTILES = 8200;
+static uint8_t *g_huge;
+static uint8_t *huge_map() {
+	if (g_huge) return g_huge;
+	int fd = (int) syscall(SYS_memfd_create, "verif-tile", 0);
+	if (fd < 0 || ftruncate(fd, TILE)) throw Skip("memfd_create unavailable");
+	std::vector<uint8_t> tile(TILE);
+	for (size_t i = 0; i < TILE; i++) tile[i] = (uint8_t) (mix64(0x7117 + (i >> 3)) >> ((i & 7) * 8));
+	if (pwrite(fd, tile.data(), TILE, 0) != (ssize_t) TILE) throw Skip("memfd write failed");
+	uint8_t *base = (uint8_t *) mmap(0, TILE * NTILES, PROT_NONE, MAP_PRIVATE | MAP_ANONYMOUS | MAP_NORESERVE, -1, 0);
+	if (base == MAP_FAILED) throw Skip("cannot reserve 8 GiB of address space");
+	for (size_t i = 0; i < NTILES; i++)
+		if (mmap(base + i * TILE, TILE, PROT_READ, MAP_SHARED | MAP_FIXED, fd, 0) == MAP_FAILED) throw Skip("cannot map tile");
+	close(fd);
+	return g_huge = base;
+}
+static void body_huge(Tape &t, Ctx &c) {
+	// kernels that take a 64-bit length: crc16_t10dif, crc32_ieee, crc32_gzip_refl, crc64_*; base variants only in the thorough tier (about 10 s per call)
+	std::vector<uint32_t> cand;
+	for (uint32_t i = 0; i < (uint32_t) NDIRECT; i++) { Kind k = DIRECT[i].kind; if ((k == K16 || k == K32 || k == K64) && (opt.thorough || std::string(DIRECT[i].level) != "base")) cand.push_back(i); }
+	for (uint32_t lvl : {11u, 6u, 4u, 1u}) for (uint32_t e = 0; e < (uint32_t) NENTRY; e++) { Kind k = ENTRY[e].kind; if (k == K16 || k == K32 || k == K64) cand.push_back(NDIRECT + lvl * NENTRY + e); }
+	Sel s = select(cand[t.range(0, cand.size() - 1)]);
+	uint64_t M = width_mask(s.v), seed = t.pick<uint64_t>({0, M, 0x1234, 0x123456789abcdef0ull}) & M;
+	size_t off = (size_t) t.pick<uint32_t>({0, 1, 63, 64, 4095, 777});
+	uint64_t len = (1ull << 32) * (uint64_t) t.pick<uint32_t>({1, 1, 1, 2}) + (uint64_t) t.pick<uint64_t>({0, 1, 15, 16, 4096, 1048576 + 7, (uint64_t) -1, (uint64_t) -4097}) ;
+	c.fpmix(mix64(len)); c.fpmix(off); c.fpmix(seed); for (const char *q = s.shown.c_str(); *q; q++) c.fpmix(*q);
+	uint8_t *base = huge_map();
+	const uint8_t *p = base + off;
+	const Fast &F = fast(s.v.model);
+	int w = model(s.v.model).width;
+	// reference: head up to the next tile boundary, whole tiles through the affine map, tail
+	uint64_t head = std::min<uint64_t>(len, (TILE - off % TILE) % TILE), ntile = (len - head) / TILE, tail = (len - head) % TILE;
+	uint64_t st = F.run(seed, p, (size_t) head);
+	if (ntile) {
+		const uint8_t *tp = base; // every tile has the same bytes
+		uint64_t c0 = F.run(0, tp, TILE), col[64];
+		for (int i = 0; i < w; i++) col[i] = F.run(1ull << i, tp, TILE) ^ c0;
+		for (uint64_t n = 0; n < ntile; n++) { uint64_t nx = c0; for (int i = 0; i < w; i++) if (st >> i & 1) nx ^= col[i]; st = nx; }
+		// the affine shortcut itself is cross-checked on two tiles
+		if (F.run(F.run(0x5a5a & M, tp, TILE), tp, TILE) != [&] { uint64_t a = 0x5a5a & M; for (int r = 0; r < 2; r++) { uint64_t nx = c0; for (int i = 0; i < w; i++) if (a >> i & 1) nx ^= col[i]; a = nx; } return a; }())
+			throw OracleBug("affine tile map disagrees with the reference CRC");
+	}
+	uint64_t want = F.run(st, p + head + ntile * TILE, (size_t) tail);
+	uint64_t got = 0;
+	guard::Fault f = guard::call([&] { got = lib_call(s.v, seed, (uint8_t *) p, len, nullptr); });
+	PBT_CHECK(!f.faulted, s.key, "%s(seed=%llx, len=%llu = 2^32*%llu%+lld, buffer offset %zu): %s", s.shown.c_str(), (unsigned long long) seed, (unsigned long long) len, (unsigned long long) ((len + (1ull << 31)) >> 32), (long long) (len - (((len + (1ull << 31)) >> 32) << 32)), off, f.describe().c_str());
+	PBT_CHECK((got & M) == want, s.key, "%s(seed=%llx, len=%llu (>= 4 GiB), buffer offset %zu) = %llx, reference %llx", s.shown.c_str(), (unsigned long long) seed, (unsigned long long) len, off, (unsigned long long) got, (unsigned long long) want);
+	c.nontrivial = true;
+	c.label(s.v.entry ? s.shown + "->" + cpu::resolved_name(s.v.entry) : s.shown);
+	if (c.want_sample) c.sample = fmt("{\"symbol\":%s,\"seed\":\"%llx\",\"len\":%llu,\"offset\":%zu}", jstr(s.shown).c_str(), (unsigned long long) seed, (unsigned long long) len, off);
+}
+
+// every candidate symbol once per run (length and offset rotate with the index)
+static void sweep_huge_len(SweepSink &sk) {
+	uint32_t ncand = 0;
+	for (uint32_t i = 0; i < (uint32_t) NDIRECT; i++) { Kind k = DIRECT[i].kind; if ((k == K16 || k == K32 || k == K64) && (sk.thorough() || std::string(DIRECT[i].level) != "base")) ncand++; }
+	for (uint32_t lvl = 0; lvl < 4; lvl++) for (uint32_t e = 0; e < (uint32_t) NENTRY; e++) { Kind k = ENTRY[e].kind; if (k == K16 || k == K32 || k == K64) ncand++; }
+	for (uint32_t i = 0; i < ncand; i++)
+		if (!sk.emit({i, i % 4, (i / 2) % 6, 0, (i * 5) % 8})) return;
+}
+
 int main(int argc, char **argv) {
 	self_test();
 	const char *rule = "case = (symbol or dispatcher@cpu-level, seed, len, placement/alignment, data kind, split points); oracle = bit-serial Rocksoft-model CRC anchored to published "
@@ -196,6 +264,7 @@ int main(int argc, char **argv) {
 		{"adler_huge", body_adler_huge, 2, 0, sweep_huge, rule},
 		{"random", body, 24, 6, nullptr, rule},
 		{"adler_limit", body_adler, 8, 1, nullptr, rule},
+		{"huge_len", body_huge, 8, 0.0002, sweep_huge_len, "symbols with a 64-bit length argument x len = 2^32 or 2^33 +- {0,1,15,16,4096,1 MiB+7} on a buffer made of one 1 MiB tile mapped repeatedly; exact reference via the tile's affine register map measured with the bit-level reference"},
 	};
 	return pbt_main(argc, argv, "C04", subs);
 }
